@@ -7,6 +7,8 @@ import re
 from datetime import datetime
 from typing import Optional
 
+from scriptplan.core.exceptions import SyntaxParsingError
+
 
 def strip_shell_comments(text: str) -> str:
     """Strip shell-style comments from text, preserving strings.
@@ -165,10 +167,17 @@ class MacroProcessor:
         """
         max_iterations = 100  # Prevent infinite loops
         iteration = 0
+        # A macro that calls itself more than once doubles the text with every pass:
+        # give up long before the pass limit and report the recursion
+        max_size = max(1_000_000, 100 * len(content))
 
         while "${" in content and iteration < max_iterations:
             iteration += 1
             content = self._expand_once(content)
+            if len(content) > max_size:
+                raise SyntaxParsingError(
+                    "Macro expansion does not terminate: a macro calls itself (directly or through other macros)"
+                )
 
         return content
 
